@@ -114,11 +114,11 @@ func (h *hookEval) actionKind(v ssa.Value, depth int) string {
 		okAll, n := true, 0
 		eng.EachInstr(g, func(in ssa.Instruction) {
 			ret, ok := in.(*ssa.Return)
-			if !ok || len(ret.Results) != 1 {
+			if !ok || len(eng.ReturnResults(ret)) != 1 {
 				return
 			}
 			n++
-			rv := eng.StripConv(ret.Results[0])
+			rv := eng.StripConv(eng.ReturnResults(ret)[0])
 			if k, isC := eng.ConstInt(rv); isC && k == h.deferV {
 				if !eng.KnownNil(prm, ret.Block()) {
 					okAll = false
